@@ -38,6 +38,10 @@ struct subject
 };
 
 template <class T> struct ops;   // per type: make(slot), take, give, figure
+// every object is built over its own, distinguishable upstream source (tag = slot + 1): after a move, a move assignment or a
+// swap each block must go back through the source it came from (the instrumented upstream reports U!foreign otherwise)
+static int g_make_slot = 0;
+static up_alloc tagged() { up_alloc a; a.tag = g_make_slot + 1; return a; }
 
 template <class T>
 struct subject_impl : subject
@@ -59,7 +63,7 @@ struct subject_impl : subject
 template <class PT> struct ops<memory_pool<PT, up_alloc>>
 {
     using T = memory_pool<PT, up_alloc>; static constexpr bool lifo = false; static constexpr bool source = false;
-    static T* make(void* s) { return new (s) T(16, 16 + 16 * 6); }
+    static T* make(void* s) { return new (s) T(16, 16 + 16 * 6, tagged()); }
     static bool take(T& t, handle& h, std::size_t) { h.p = t.allocate_node(); h.size = 16; return true; }
     static void give(T& t, handle& h) { t.deallocate_node(h.p); }
     static std::size_t figure(T& t) { return t.capacity_left(); }
@@ -67,7 +71,7 @@ template <class PT> struct ops<memory_pool<PT, up_alloc>>
 template <> struct ops<memory_pool<small_node_pool, up_alloc>>
 {
     using T = memory_pool<small_node_pool, up_alloc>; static constexpr bool lifo = false; static constexpr bool source = false;
-    static T* make(void* s) { return new (s) T(8, 400); }
+    static T* make(void* s) { return new (s) T(8, 400, tagged()); }
     static bool take(T& t, handle& h, std::size_t) { h.p = t.allocate_node(); h.size = 8; return true; }
     static void give(T& t, handle& h) { t.deallocate_node(h.p); }
     static std::size_t figure(T& t) { return t.capacity_left(); }
@@ -75,16 +79,17 @@ template <> struct ops<memory_pool<small_node_pool, up_alloc>>
 template <class PT> struct ops<memory_pool_collection<PT, identity_buckets, up_alloc>>
 {
     using T = memory_pool_collection<PT, identity_buckets, up_alloc>; static constexpr bool lifo = false; static constexpr bool source = false;
-    static T* make(void* s) { return new (s) T(32, 4096); }
-    static bool take(T& t, handle& h, std::size_t n) { std::size_t sz = 8 + n % 25; h.p = t.allocate_node(sz); h.size = sz; return true; }
+    // collections of different slots differ in their maximum node size: it belongs to what a move hands over
+    static T* make(void* s) { return new (s) T(g_make_slot % 2 ? 64 : 32, 4096, tagged()); }
+    static bool take(T& t, handle& h, std::size_t n) { std::size_t sz = 8 + n % (t.max_node_size() - 7); h.p = t.allocate_node(sz); h.size = sz; return true; }
     static void give(T& t, handle& h) { t.deallocate_node(h.p, h.size); }
-    static std::size_t figure(T& t) { return t.capacity_left(); }
+    static std::size_t figure(T& t) { return t.capacity_left() * 128 + t.max_node_size(); }
 };
 // ---- stacks
 template <class BA> struct ops<memory_stack<BA>>
 {
     using T = memory_stack<BA>; static constexpr bool lifo = true; static constexpr bool source = false;
-    static T* make(void* s) { return new (s) T(256); }
+    static T* make(void* s) { return new (s) T(256, tagged()); }
     static bool take(T& t, handle& h, std::size_t n) { std::size_t sz = 1 + n % 150; h.p = t.allocate(sz, 8); h.size = sz; return true; }
     static void give(T&, handle&) {}       // stack memory is released by destruction (or unwinding, exercised under C06)
     static std::size_t figure(T& t) { return t.capacity_left(); }
@@ -92,7 +97,7 @@ template <class BA> struct ops<memory_stack<BA>>
 template <> struct ops<iteration_allocator<2, up_alloc>>
 {
     using T = iteration_allocator<2, up_alloc>; static constexpr bool lifo = true; static constexpr bool source = false;
-    static T* make(void* s) { return new (s) T(1024); }
+    static T* make(void* s) { return new (s) T(1024, tagged()); }
     static bool take(T& t, handle& h, std::size_t n) { std::size_t sz = 1 + n % 40; h.p = t.try_allocate(sz, 8); h.size = sz; return h.p != nullptr; }
     static void give(T&, handle&) {}
     static std::size_t figure(T& t) { return t.capacity_left(); }
@@ -101,7 +106,7 @@ template <> struct ops<iteration_allocator<2, up_alloc>>
 template <class BA, bool C> struct ops<memory_arena<BA, C>>
 {
     using T = memory_arena<BA, C>; static constexpr bool lifo = true; static constexpr bool source = false;
-    static T* make(void* s) { return new (s) T(256); }
+    static T* make(void* s) { return new (s) T(256, tagged()); }
     static bool take(T& t, handle& h, std::size_t) { if (t.size() >= 5 || t.next_block_size() > (1u << 16)) return false; h.blk = t.allocate_block(); h.p = h.blk.memory; h.size = h.blk.size < 64 ? h.blk.size : 64; return true; }
     static void give(T& t, handle&) { t.deallocate_block(); }
     static std::size_t figure(T& t) { return t.size() * 1000 + t.cache_size(); }
@@ -110,7 +115,7 @@ template <class BA, bool C> struct ops<memory_arena<BA, C>>
 template <> struct ops<growing_block_allocator<up_alloc>>
 {
     using T = growing_block_allocator<up_alloc>; static constexpr bool lifo = false; static constexpr bool source = true;
-    static T* make(void* s) { return new (s) T(128); }
+    static T* make(void* s) { return new (s) T(128, tagged()); }
     static bool take(T& t, handle& h, std::size_t) { if (t.next_block_size() > 4096) return false; h.blk = t.allocate_block(); h.p = h.blk.memory; h.size = 64; return true; }
     static void give(T& t, handle& h) { t.deallocate_block(h.blk); }
     static std::size_t figure(T& t) { return t.next_block_size(); }
@@ -118,7 +123,7 @@ template <> struct ops<growing_block_allocator<up_alloc>>
 template <> struct ops<fixed_block_allocator<up_alloc>>
 {
     using T = fixed_block_allocator<up_alloc>; static constexpr bool lifo = false; static constexpr bool source = true;
-    static T* make(void* s) { return new (s) T(512); }
+    static T* make(void* s) { return new (s) T(512, tagged()); }
     static bool take(T& t, handle& h, std::size_t) { if (t.next_block_size() == 0) return false; h.blk = t.allocate_block(); h.p = h.blk.memory; h.size = 64; return true; }
     static void give(T& t, handle& h) { t.deallocate_block(h.blk); }
     static std::size_t figure(T& t) { return t.next_block_size(); }
@@ -176,7 +181,7 @@ static int run(bool high, const std::string& header)
         std::istringstream is(line); std::string op; is >> op; std::string res;
         int i = -1, j = -1;
         if (op == "new") { is >> i; if (i < 0 || i > 3 || state[i] != 'E') { std::printf("%s = skipped\n", line.c_str()); continue; }
-            try { slots[i] = new subject_impl<T>(ops<T>::make(slotmem())); state[i] = 'L'; res = "made"; } catch (...) { res = std::string("throw ") + classify_current(); } }
+            try { g_make_slot = i; slots[i] = new subject_impl<T>(ops<T>::make(slotmem())); state[i] = 'L'; res = "made"; } catch (...) { res = std::string("throw ") + classify_current(); } }
         else if (op == "use")
         {
             std::size_t n; is >> i >> n; if (i < 0 || i > 3 || state[i] != 'L') { std::printf("%s = skipped\n", line.c_str()); continue; }
